@@ -3,17 +3,67 @@ CHECK = {
     "harness": "h-c01",
     "translators": [],
     "level": "proof",
-    "technique": "Lean 4 proof of prover/verifier Fiat-Shamir schedule agreement for every constraint-system shape and proving configuration; schedules tied to the code by recording the real transcripts of generated circuits",
+    "technique": "Lean 4 proofs over executable models of the prover/verifier control flow: Fiat-Shamir schedule agreement for every "
+                 "constraint-system shape and proving configuration; order of the y-combination (prover loop nest = verifier iterator chain); "
+                 "expression-graph compiler correctness; quotient split/blind/recombine; row-level completeness of the permutation, lookup "
+                 "(incl. a full specification of permute_expression_pair for every HashMap iteration order) and trash arguments as the prover "
+                 "constructs them. Models tied to the code by recording real transcripts, the compiled graphs, the verifier's identity log "
+                 "and the hooked Lagrange vectors of the prover's arguments on generated circuits",
     "rule": "circuit-family members (random gate kinds/degrees/rotations, lookups, copy constraints, phases, "
             "unblinded columns, trash arguments) x 1..4 proofs x 0..2 committed + 0..2 plain instance columns x k "
             "x {blake2b, poseidon}; one case = one real prove+verify; request lines carry the dumped constraint-system "
-            "shape; distinct = distinct (shape, configuration) request lines; all are non-trivial (real proofs)",
-    "explanation": "Theorem schedule_agree: for every shape and configuration the verifier replays the prover's transcript "
-                   "operations. The executable schedules are compared, event by event, with the transcripts recorded from the real "
-                   "prover and verifier; the oracle is that every honest proof verifies.",
-    "trusted_base": ["commitments, pairing check and the hash inside the transcript are abstract in the model (events carry only kind/type/tag)"],
-    "assumptions": ["witness satisfies the circuit (by construction of the family); KZG completeness is C14"],
-    "level_text": "Kernel-checked theorem that prover and verifier transcript schedules agree for all shapes/configurations (the place where the pinned tree rejected honest proofs), plus hpieces/extended-domain lemmas; model validated against recorded transcripts of real proofs; honest-proof acceptance observed on every generated case",
-    "level_note": "Trusted: Lean kernel, harness, driver. Abstract: group/pairing/hash. Completeness of the algebraic identities (permutation/lookup products) is argued in DESIGN.md, not yet all mechanised",
+            "shape (schedule/prooflen/graph/idcount) or, for the argument vectors (blake2b runs, k <= 7 quick / 8 thorough, first two "
+            "proofs), the REAL table of the proof with its blinding rows, the sigma labels of the proving key and the challenges read off "
+            "the transcript (argtable), followed by permz / lookupcomp / lookupperm / lookupz / trashvec (model recomputes the prover's "
+            "vectors) and permrules / lookuprules / trashrules (the verifier's identities read row by row on the logged vectors and on "
+            "vectors with one altered entry); lookupperm-failure = witnesses with a lookup input outside the table; distinct = distinct "
+            "request lines; all are non-trivial (real proofs)",
+    "explanation": "Theorems: schedule_agree (verifier replays the prover's transcript operations for every shape/configuration); "
+                   "identity_order_agree / horner_sections (the prover's accumulation value*y+identity over custom gates [Horner from the "
+                   "previous value], permutation, lookups, trash, proof after proof, equals the verifier's fold over its expression chain, "
+                   "for every shape); compile_correct; quotient_blind_recombine / chunks_recombine; perm_product_complete (for every number "
+                   "of permutation columns, chunk length, n, blinding values: if the (value, sigma-label) multiset over the usable cells "
+                   "equals the (value, identity-label) multiset - derived from a bijection of the cells by sigma_invariant_pairs_perm - and no "
+                   "denominator vanishes, every permutation identity vanishes on every row), with perm_rule_rows (first/chain/product rules "
+                   "hold by construction for any values) and perm_last_value / perm_last_complete; lookup_permuted_spec / _fail / _no_panic "
+                   "(permute_expression_pair returns the sorted input and a permutation of the table with A'0=S'0 and A'i=S'i or A'i=A'i-1 "
+                   "for EVERY iteration order of the leftover HashMap, ConstraintSystemFailure iff some input is missing, never a panic); "
+                   "lookup_product_complete (all five lookup identities vanish on every row); trash_complete. "
+                   "Tie: the executable schedules are compared event by event with transcripts recorded from the real prover and verifier; "
+                   "the number of identities with the verifier's hooked identity log; the Lean models permProducts / compressExpressions / "
+                   "permuteExpressionPair / lookupProduct / trashValues are run on the real table and must reproduce the vectors logged "
+                   "inside the real prover (non-random rows; for the permuted table the rows the specification forces and its multiset); the "
+                   "verifier-side row rules (Lean and an independent Rust re-implementation) are evaluated on the logged vectors. Oracles: "
+                   "every honest proof verifies; prover and verifier absorb identical bytes; the logged vectors satisfy every identity on "
+                   "every row; the honest table satisfies the multiset hypothesis of perm_product_complete.",
+    "trusted_base": [
+        "commitments, pairing check and the hash inside the transcript are abstract in the model (events carry only kind/type/tag)",
+        "the argument theorems are row-level: a polynomial in Lagrange form is identified with its value vector on the domain, "
+        "l_0/l_last/l_blind with the indicator of row 0 / row u / rows > u, rotation with a cyclic row shift (the passage to the quotient "
+        "h = numerator/(X^n-1) is the algebra of C02/C12/C14, not re-proved here)",
+        "verif-hooks in midnight-proofs (thread-local observers: identity log, argument-vector log), ProvingKey::verif_derived_parts "
+        "(fixed values, sigma labels), ProvingKey::verif_custom_gates_graph",
+        "parallelize/rayon chunking inside the prover's loops is modelled by the sequential loop (chunk independence is C12/C17)",
+    ],
+    "assumptions": [
+        "witness satisfies the circuit (by construction of the family); KZG completeness is C14",
+        "challenges outside the exceptional set: no denominator beta*sigma+gamma+v resp. (beta+A')(gamma+S') vanishes on a usable row "
+        "(explicit hypotheses hden of perm_product_complete / lookup_product_complete; counted on every real case: never observed)",
+        "Ord of the field is a linear order whose equal elements are identical (hypothesis LinOrd of the lookup theorems)",
+    ],
+    "level_text": "Kernel-checked theorems (29 obligations): prover and verifier transcript schedules agree for all shapes/configurations "
+                  "(the place where the pinned tree rejected honest proofs); the prover's order of combining identities with y equals the "
+                  "verifier's for all shapes; the expression-graph compiler is correct; quotient split/blind/recombine; the permutation, "
+                  "lookup and trash arguments the honest prover constructs satisfy every verifier identity on every row (for all layouts, "
+                  "all n, all blinding values, every HashMap order, outside an explicitly stated exceptional set of challenges). Models "
+                  "validated against recorded transcripts, compiled graphs, the identity log and the argument vectors logged inside the "
+                  "real prover; honest-proof acceptance and rule satisfaction observed on every generated case",
+    "level_note": "Trusted: Lean kernel, harness, driver, hooks. Abstract: group/pairing/hash. Not mechanised: the assembly "
+                  "honest_verifies_algebraic (from 'every identity vanishes on every row' to 'the quotient exists and the verifier's "
+                  "evaluation check at x passes' - divisibility by X^n-1, coset evaluation, the l_i formulas), the custom-gate identities "
+                  "on blinding rows (gates are satisfied on all rows by the floor planner's zero selectors - observed by the acceptance "
+                  "oracle only), and the probability bound for the exceptional challenge set. The argument models take sigma labels and "
+                  "cell values as inputs: that keygen produces sigma labels which are a permutation of the identity labels is checked on "
+                  "every real case (multiset hypothesis), not proved (C17/C02)",
     "timeout": {"quick": 1200, "thorough": 7200, "search": 1800},
 }
